@@ -566,6 +566,12 @@ pub fn run_c04(out: &mut Out, seed: u64, n: u64) {
     }
     small_codec_blocks(out);
     level_events(out);
+    // an index obtained by stepping is an index too (< 512)
+    for i in [0u16, 1, 255, 256, 510, 511] {
+        for c in [0u64, 1, 2, 255, 256, 511, 512, 513, 0xffff, u64::MAX] {
+            idx_step_events(out, i, 511 - i, c);
+        }
+    }
 }
 
 // ------------------------------------------------------------------------------------------
